@@ -64,7 +64,8 @@ def _build(d, maxlen):
             return d.choice([L - 1, L, L + 1, 255, 256, L // 2])
         return d.int(-2, L + 3)
     if d.chance(1, 12):
-        s = d.choice([12345, 7, 100, 1212, -45])
+        s = d.choice([12345, 7, 100, 1212, -45, 7.0, 2.5, -0.5, 100.0,
+                      1212.0])
         L = len(str(s))
     if fn == 'LEFT' or fn == 'RIGHT':
         args = [s] if d.chance(1, 6) else [s, pos()]
@@ -97,7 +98,8 @@ def _build(d, maxlen):
             t = s.swapcase() if d.chance(1, 2) else s
         args = [s, t]
     elif fn in ('CONCAT', 'CONCATENATE', 'AMP'):
-        args = [s] + [_text(d, 4) if d.pick(4) else d.int(0, 99)
+        args = [s] + [_text(d, 4) if d.pick(4) else d.choice(
+                          [d.int(0, 99), 7.0, 2.5, 30.0])
                       if d.pick(3) else bool(d.pick(2))
                       for _ in range(1 + d.pick(3))]
         if d.chance(1, 6):
